@@ -140,10 +140,16 @@ def main():
             if only and name not in only:
                 continue
             meta = json.load(open(os.path.join(d, "meta.json")))
+            if meta.get("obsolete"):
+                rows[name] = {"obsolete": meta["obsolete"]}
+                continue
             ids = [meta["property"]] + [i for i in meta.get("also_check", [])]
             rows[name] = detect(d, ids)
             print(name, json.dumps(rows[name]), flush=True)
-        json.dump(rows, open(os.path.join(root, "MATRIX.json"), "w"), indent=1, sort_keys=True)
+        mpath = os.path.join(root, "MATRIX.json")
+        allrows = json.load(open(mpath)) if (only and os.path.exists(mpath)) else {}
+        allrows.update(rows)
+        json.dump(allrows, open(mpath, "w"), indent=1, sort_keys=True)
 
 
 if __name__ == "__main__":
